@@ -57,6 +57,11 @@ def parse(tr):
         return dict(u=c["u"], fault=False, y=y, fmu=impr[3], fs=impr[5] if impr[5] is not None else 0.0, impr=impr[7],
                     newrow=c["newrow"], fbase=impr[2], sbase=impr[4])
 
+    orphan = [c["i"] for c in calls if "u" not in c]
+    if orphan:
+        # every target call is made by exactly one logger call in the model; a call without the logger's bookkeeping means the target
+        # was invoked twice within one logger call (or from somewhere else)
+        raise TraceShape(f"target call(s) {orphan[:3]} were not made by a logger call of their own (target invoked twice in one evaluation?)")
     init_calls = [c for c in calls if c["phase"] == "init"]
     P["init_calls"] = [dict(ev=mk_eval(c, None), record=c.get("record", True)) for c in init_calls]
     if idx_init is None:
